@@ -24,6 +24,9 @@ type deps struct {
 	// statement.
 	itea                     map[string][]*ast.Identifier
 	analyzingVarExprWithItea *ast.Identifier
+	// types maps the names of the package-level type declarations to the
+	// declared types.
+	types map[string]ast.Expression
 }
 
 // addDepsToGlobal adds all identifiers that appear in node and in its children
@@ -144,6 +147,14 @@ func analyzeTree(pkg *ast.Package) packageDeclsDeps {
 		itea: pkg.IR.IteaNameToVarIdents,
 	}
 	for _, n := range pkg.Declarations {
+		if td, ok := n.(*ast.TypeDeclaration); ok {
+			if d.types == nil {
+				d.types = map[string]ast.Expression{}
+			}
+			d.types[td.Ident.Name] = td.Type
+		}
+	}
+	for _, n := range pkg.Declarations {
 		switch n := n.(type) {
 		case *ast.Var:
 			d.analyzeGlobalVar(n)
@@ -156,6 +167,69 @@ func analyzeTree(pkg *ast.Package) packageDeclsDeps {
 		}
 	}
 	return packageDeclsDeps(d.d)
+}
+
+// compositeLiteralDeps returns the dependencies of the composite literal n
+// whose type is typ; typ is the type of the elements of the enclosing
+// composite literal if the type of n is elided, and it is nil if it is not
+// known. The keys of a literal of a struct type are names of fields, not
+// dependencies.
+func (d *deps) compositeLiteralDeps(n *ast.CompositeLiteral, typ ast.Expression, scopes depScopes) []*ast.Identifier {
+	deps := d.nodeDeps(n.Type, scopes)
+	typ = d.underlyingTypeExpr(typ, scopes)
+	_, isStruct := typ.(*ast.StructType)
+	var keyType, elemType ast.Expression
+	switch t := typ.(type) {
+	case *ast.ArrayType:
+		elemType = t.ElementType
+	case *ast.SliceType:
+		elemType = t.ElementType
+	case *ast.MapType:
+		keyType, elemType = t.KeyType, t.ValueType
+	}
+	for _, kv := range n.KeyValues {
+		if key, ok := kv.Key.(*ast.CompositeLiteral); ok && key.Type == nil {
+			deps = append(deps, d.compositeLiteralDeps(key, keyType, scopes)...)
+		} else if _, ok := kv.Key.(*ast.Identifier); !ok || !isStruct {
+			deps = append(deps, d.nodeDeps(kv.Key, scopes)...)
+		}
+		if value, ok := kv.Value.(*ast.CompositeLiteral); ok && value.Type == nil {
+			deps = append(deps, d.compositeLiteralDeps(value, elemType, scopes)...)
+		} else {
+			deps = append(deps, d.nodeDeps(kv.Value, scopes)...)
+		}
+	}
+	return deps
+}
+
+// underlyingTypeExpr returns the type expression that typ denotes, following
+// the package-level type declarations. It returns nil if it is not known:
+// the name of a type that is declared locally, imported or predeclared.
+func (d *deps) underlyingTypeExpr(typ ast.Expression, scopes depScopes) ast.Expression {
+	for i := 0; i < 100; i++ {
+		switch t := typ.(type) {
+		case *ast.StructType, *ast.ArrayType, *ast.SliceType, *ast.MapType:
+			return typ
+		case *ast.UnaryOperator:
+			// The type of an elided &T{...} literal.
+			if t.Op != ast.OperatorPointer {
+				return nil
+			}
+			typ = t.Expr
+		case *ast.Identifier:
+			if isLocallyDefined(scopes, t.Name) {
+				return nil
+			}
+			decl, ok := d.types[t.Name]
+			if !ok {
+				return nil
+			}
+			typ = decl
+		default:
+			return nil
+		}
+	}
+	return nil
 }
 
 // depScopes represents a set of scopes used in dependency analysis.
@@ -245,12 +319,7 @@ func (d *deps) nodeDeps(n ast.Node, scopes depScopes) []*ast.Identifier {
 	case *ast.ChanType:
 		return d.nodeDeps(n.ElementType, scopes)
 	case *ast.CompositeLiteral:
-		deps := d.nodeDeps(n.Type, scopes)
-		for _, kv := range n.KeyValues {
-			deps = append(deps, d.nodeDeps(kv.Key, scopes)...)
-			deps = append(deps, d.nodeDeps(kv.Value, scopes)...)
-		}
-		return deps
+		return d.compositeLiteralDeps(n, n.Type, scopes)
 	case *ast.Comment:
 		return nil
 	case *ast.Const:
